@@ -117,7 +117,10 @@ def gen_calls(gen, inst, rnd, n, temps=None):
                                        172800, rnd.randint(0, 172800),
                                        # legal but never seen in practice: days and weeks
                                        255 * 3600 + 59 * 60, 256 * 3600, 300 * 3600 + 600,
-                                       rnd.randint(256 * 3600, 10 ** 7)]))))
+                                       rnd.randint(256 * 3600, 10 ** 7),
+                                       # fractions of a second (target - now())
+                                       299.7, 7199.7, 86399.7, 59.999999,
+                                       rnd.randint(0, 90000) + rnd.choice([0.2, 0.5, 0.7])]))))
         elif c < 0.69:
             calls.append(("ac", ai, "set_quick_timer_time",
                           (rnd.choice(["ON_TIMER", "OFF_TIMER"]), rnd.randint(0, 23),
@@ -326,7 +329,7 @@ def judge_frame(gen, inst, call, frame, cmd, timers_reported):
             if cmd["kind"] != "quick_timer":
                 b("wrong-message-kind", got=cmd["kind"])
                 return bad
-            secs = args[1]
+            secs = int(args[1])   # one-minute resolution, truncating (documented)
             if cmd["ac"] != aid:
                 b("wrong-target", got=cmd["ac"], want=aid)
             if cmd["timer"] != ("on" if args[0] == "ON_TIMER" else "off"):
